@@ -211,11 +211,11 @@ PENDING = {p: "static rules designed in DESIGN.md but not built yet in this revi
 # Later-wave clauses (DESIGN.md §3, "second" to "fifth wave"): appended to the claimed level so that MANIFEST.json says what is decided today.
 LATER = {
     "C01": "validity counts accumulate in a wide integer (R-COUNTWIDTH); no Fortran-order flatten for position-picking reductions (R-FORDER); "
-           "layout-independent flattening, label/value co-permutation, rename discipline of the dispatcher. Sixth wave: accumulation dtype reaches every engine kernel (R-ACCFORWARD), variance shift wide enough (R-VARSHIFT[width]), groups without a valid member masked in the quantile kernel (R-NOVALID), no narrowing re-bind of widening targets (R-CASTORDER).",
+           "layout-independent flattening, label/value co-permutation, rename discipline of the dispatcher. Sixth wave: accumulation dtype reaches every engine kernel (R-ACCFORWARD), variance shift wide enough (R-VARSHIFT[width]), groups without a valid member masked in the quantile kernel (R-NOVALID), no narrowing re-bind of widening targets (R-CASTORDER). External kernels that break their name's NaN discipline are wrapped (R-NUMBAMINMAX).",
     "C02": "every block passes the re-indexer, the second reduction of the grouped combine is never skipped (R-COMBINEBYPASS), finalizers "
            "propagate NaN (R-NANFINAL), the -1 of get_indexer is consulted before use as a position (R-INDEXER), explicit axis tuples are sorted "
-           "before positional use (R-AXISORDER).",
-    "C03": "every stage of one combine runs with the caller's `sort` (R-PASSTHROUGH[sort]). Every tree node reads its whole partition (R-WHOLEPART); the last intermediate is taken for counts only under the counter's guard (R-COUNTER).",
+           "before positional use (R-AXISORDER). No data-derived casts on the tree-combine path (R-COMBINECAST).",
+    "C03": "every stage of one combine runs with the caller's `sort` (R-PASSTHROUGH[sort]). Every tree node reads its whole partition (R-WHOLEPART); the last intermediate is taken for counts only under the counter's guard (R-COUNTER). No data-derived casts on the tree-combine path (R-COMBINECAST).",
     "C04": "isfinite is never a validity mask (R-FINITE); finalizers propagate NaN (R-NANFINAL). NaN-skipping kernels answer all-NaN groups with their fill (R-ALLNANFILL); variance finalizer clamped NaN-propagatingly (R-NANFINAL).",
     "C05": "every path of the dtype normaliser passes the fill-value widening (R-FILLWIDEN); get_indexer's -1 is consulted (R-INDEXER); "
            "code/label producers (R-IDENTITYCODES, R-LABELVALUE, R-MISSINGCODE). Absent-slot mask for every source of memberless slots (R-ABSENTMASK), fill written only into values of the final dtype (R-FILLCAST), integer fills widen by value (R-FILLWIDEN), gathers use from_.get_indexer(to) (R-INDEXDIR), the xarray wrapper forwards options unchanged (R-PASSTHROUGH[options]).",
@@ -232,7 +232,7 @@ LATER = {
            "every number of reduced axes (R-ARITY, a tuple-arity algebra). maybe_promote is the identity on dtypes with a missing value (R-PROMOTEIDEM); predicates treat names and Aggregation objects alike (R-PREDFAMILY); fill written after the final cast (R-FILLCAST).",
     "C12": "placeholder labels of all-missing blocks are typed like the labels (R-PLACEHOLDER). Unknown labels refused for every partial-axis reduction (R-PARTIALUNKNOWN).",
     "C13": "property getters of graph-embedded classes do not write through self (R-GETTER); caller containers copied (R-CAPTURE).",
-    "C14": "no task writes through its input (R-PURE). Caller containers are copied before being stored (R-CAPTURE); the engine is part of the graph keys (R-TOKEN).",
+    "C14": "no task writes through its input (R-PURE). Caller containers are copied before being stored (R-CAPTURE); the engine is part of the graph keys (R-TOKEN). Process-wide options of other libraries changed only inside a `with` (R-OPTIONS).",
     "C16": "per-block and combine-step label lists follow `sort` (R-BLOCKLABELS). The finalizer's re-index is skipped only for order-equal labels (R-REINDEXSKIP); per-block label lists in block order (R-BLOCKLABELS).",
     "C18": "quantile levels bounded to [0, 1] (R-QRANGE); renames in the dispatcher keep the NaN discipline (R-DISPATCH). Vector-quantile dimensions in every arm and end-relative squeezing (R-ARITY), no-valid-member masking (R-NOVALID), out= buffers alias no later read (R-OUTALIAS).",
     "C19": "necessary conditions of 'auto works wherever map-reduce does': refusals after the plan choice are anticipated by _choose_method "
@@ -240,7 +240,7 @@ LATER = {
            "map (R-EMPTYCOHORTS); and of clean refusal: alignment / axis range / quantile range / dtype normalisation refusals dominate the kernels, "
            "refusals test the normalised form of two-spelling options (R-NORMFORM), no in-place mutation of a definite tuple (R-SEQKIND), "
            "blockwise plans see broadcast labels (R-BLOCKBCAST), tuple arities hold for every number of axes (R-ARITY), the key array is meshed "
-           "(R-MESHINDEX), axis tuples are sorted (R-AXISORDER). Sixth wave: integer positions for np.unravel_index (R-INTINDEX), no in-place float results in user-typed buffers (R-INPLACECAST), typed placeholder labels (R-PLACEHOLDER), predicate family (R-PREDFAMILY), engine/fill refusal (R-ENGINEFILL). Eager arg-reduction kernels run in an integer dtype (R-INTINDEX kernel clause); same-length gathers guarded for emptiness (R-EMPTYIDX).",
+           "(R-MESHINDEX), axis tuples are sorted (R-AXISORDER). Sixth wave: integer positions for np.unravel_index (R-INTINDEX), no in-place float results in user-typed buffers (R-INPLACECAST), typed placeholder labels (R-PLACEHOLDER), predicate family (R-PREDFAMILY), engine/fill refusal (R-ENGINEFILL). Eager arg-reduction kernels run in an integer dtype (R-INTINDEX kernel clause); same-length gathers guarded for emptiness (R-EMPTYIDX). Zero-length blocks dropped before a blockwise plan (R-ZEROBLOCK); refusals depend on every laziness flag (R-NORMFORM).",
     "C20": "isfinite never a validity mask (R-FINITE), padding identities never mistaken for absence (R-COLLIDE), wide validity counts (R-COUNTWIDTH). Accumulation dtype forwarded / squares widened (R-ACCFORWARD), variance shift width (R-VARSHIFT[width]), complex identities folded (R-INFRESOLVE), NaN substitutes keep infinities (R-DISPATCH).",
 }
 for _p, _t in LATER.items():
